@@ -187,6 +187,11 @@ func Run(r *core.Run, opt Options, body func(w *World)) (w *World) {
 				<-done
 			}
 			r.Steps += w.Sched.Steps
+			w.mu.Lock()
+			if w.NetDeliveries > 0 {
+				r.Probes["tcp-segments-delivered-by-the-scheduled-wire"] += w.NetDeliveries
+			}
+			w.mu.Unlock()
 			r.SimTime += time.Since(w.Start)
 			if w.Sched.Overrun {
 				r.Notes["step_limit"] = "scheduler step limit exceeded"
